@@ -408,7 +408,7 @@ def ode_loop_correspondence(ctx):
     def one(rn):
         integ, wdt10, typ, dt = rn
         for attempt in (0, 1):
-            r = subprocess.run(["timeout", "90", "gdb", "-batch", "-nx", "-x", gdbf, "--args", exe, "ode:" + integ, str(wdt10), str(typ), "4", "step", repr(dt)],
+            r = subprocess.run(["timeout", "-k", "5", "45", "gdb", "-batch", "-nx", "-x", gdbf, "--args", exe, "ode:" + integ, str(wdt10), str(typ), "4", "step", repr(dt)],
                                capture_output=True, text=True)
             if r.returncode == 124:
                 return "HANG"
@@ -425,8 +425,9 @@ def ode_loop_correspondence(ctx):
     for rn, rows in zip(runs, traces):
         label = "ode:%s w*dt=%g dt=%g" % (rn[0], rn[1] / 10, rn[3])
         if rows == "HANG":
-            ctx.violation("hang:ode-loop " + label, {"driver": "tools/c01_driver.c", "args": ["ode:" + rn[0], rn[1], rn[2], 4, "step", rn[3]],
-                                                     "what": "4 N-body steps with a harmonic-oscillator user ODE did not finish within 90 s"}, True,
+            if len([v for v in ctx.violations if str(v["key"]).startswith("hang:ode-loop")]) < 4:
+              ctx.violation("hang:ode-loop " + label, {"driver": "tools/c01_driver.c", "args": ["ode:" + rn[0], rn[1], rn[2], 4, "step", rn[3]],
+                                                     "what": "4 N-body steps with a harmonic-oscillator user ODE did not finish within 45 s"}, True,
                           "the library hangs advancing a user ODE (%s)" % label)
             bad.append((label, "hang")); continue
         if rows is None:
@@ -642,7 +643,7 @@ def history_probes(ctx, libdir):
     jobs = [(nb, o) for nb in (0, 1) for o in others] + [("n0", o) for o in others + ["bs"]]
     def one(j):
         try:
-            return vlib.run_py(libdir, os.path.join(HERE, "c01_history_probe.py"), list(j), timeout=300)
+            return vlib.run_py(libdir, os.path.join(HERE, "c01_history_probe.py"), list(j), timeout=60)
         except subprocess.TimeoutExpired:
             return None
     with ThreadPoolExecutor(max_workers=vlib.JOBS) as ex:
@@ -651,7 +652,9 @@ def history_probes(ctx, libdir):
         key = ("history:bs-user-ode(needs_nbody=%d)->%s->bs" % (nb, o)) if nb != "n0" else "corner:N=0/%s" % o
         ctx.case(key=key)
         if r is None:
-            ctx.violation(key, {"needs_nbody": nb, "integrator": o, "what": "timeout"}, True, "history probe hangs"); continue
+            if len([v for v in ctx.violations if "probe hangs" in v["what"]]) < 4:
+                ctx.violation(key, {"needs_nbody": nb, "integrator": o, "what": "no result within 60 s", "script": "tools/c01_history_probe.py %s %s" % (nb, o)}, True, "history probe hangs")
+            continue
         if r.returncode < 0 or r.returncode >= 128:
             ctx.violation(key, {"needs_nbody": nb, "integrator": o, "status": r.returncode, "stderr": r.stderr[-600:],
                                 "script": "tools/c01_history_probe.py %s %s" % (nb, o)}, True,
@@ -672,7 +675,7 @@ def search(ctx, libdir, only=None):
     """the library-only searcher, one child process per group (in parallel); every scenario writes a heartbeat line first, so that a
     hang (per-group wall-clock limit) or a crash of the library is reported with the concrete input that was running."""
     groups = ["lattice", "adaptive", "ode", "warn", "history", "corners"] if not only else ["lattice"]
-    limit = ctx.scale(420, 2400)
+    limit = ctx.scale(150, 1500)       # quick-tier groups normally need 5..30 s each, also on a loaded machine
     d = os.path.join(vlib.BUILD, "c01drv"); os.makedirs(d, exist_ok=True)
     def one(g):
         prog = os.path.join(d, "progress_%s_%d.jsonl" % (g, os.getpid()))
